@@ -149,7 +149,8 @@ ReducedTaskProbes ==  \* parameters a class does not have are left at their neut
 WorkerProbes == { [kind |-> "worker", name |-> n] : n \in {"New", "W1", "T1", "CW_CumulativeWorker_1", "CW"} }
 CumulativeProbes == { [kind |-> "cumulative", name |-> n, size |-> s] : n \in {"New", "CW", "W1"}, s \in {-1, 0, 1, 2, 3} }
 SelectProbes == { [kind |-> "select", name |-> n, workers |-> ws, n |-> k] :
-                    n \in {"New", "S1"}, ws \in {<<>>, <<"W1">>, <<"W1", "W2">>, <<"W1", "W2", "W3">>}, k \in {1, 2, 3, 4} }
+                    n \in {"New", "S1"}, ws \in {<<>>, <<"W1">>, <<"W1", "W2">>, <<"W1", "W2", "W3">>, <<"CW", "W1">>, <<"CW", "CW2">>, <<"CW">>},
+                    k \in {1, 2, 3, 4} }
 ConstraintProbes ==
   { [kind |-> "constraint", cls |-> c, name |-> n, task |-> t, optional |-> FALSE] :
       c \in {"OptionalTaskForceSchedule", "OptionalTaskConditionSchedule", "TaskStartAt"}, n \in {"New", "K1"}, t \in {"T1", "T2", "T3"} }
